@@ -284,6 +284,7 @@ func ruleC07R2(c *Ctx) {
 	mergeFn := c.P.MethodOf("annotations", "merge")
 	// uses of the caller's annotations parameter
 	var merges []*ssa.Call
+	mergeSrc := map[*ssa.Call]ssa.Value{}
 	bad := false
 	var uses []ssa.Instruction
 	collect := func(v ssa.Value) {
@@ -323,6 +324,21 @@ func ruleC07R2(c *Ctx) {
 			callee := x.Call.StaticCallee()
 			if callee != nil && callee == mergeFn && len(x.Call.Args) == 2 && isParamOrLoad(x.Call.Args[0], m.annsParam) {
 				merges = append(merges, x)
+				mergeSrc[x] = x.Call.Args[1]
+				continue
+			}
+			// a helper that does the hand-over and nothing else
+			handed := false
+			for pi, a := range x.Call.Args {
+				if isParamOrLoad(a, m.annsParam) {
+					if si, ok := c.handOverHelper(callee, pi); ok && si < len(x.Call.Args) {
+						merges = append(merges, x)
+						mergeSrc[x] = x.Call.Args[si]
+						handed = true
+					}
+				}
+			}
+			if handed {
 				continue
 			}
 			bad = true
@@ -355,7 +371,7 @@ func ruleC07R2(c *Ctx) {
 		})
 	}
 	c.R.Check(!deferred, rule, "merge:not-deferred", c.pos(mg), "the merge into the caller's record is not made by a deferred function", "the frame's annotations are merged into the caller's by a deferred function, which runs on every exit: the evaluations of a schema that fails (a failing branch of anyOf, a failing `if`) become visible to the caller, and unevaluated* no longer applies to what they covered")
-	c.R.Check(m.isFrameAnns(mg.Call.Args[1]), rule, "merge:source-is-frame", c.pos(mg), "the merged record is the frame's own collector", "the record merged into the caller's annotations is not the frame's collector")
+	c.R.Check(m.isFrameAnns(mergeSrc[mg]), rule, "merge:source-is-frame", c.pos(mg), "the merged record is the frame's own collector", "the record merged into the caller's annotations is not the frame's collector")
 	// after the merge only the success epilogue may run
 	okEpilogue := true
 	var offending ssa.Instruction
@@ -624,6 +640,17 @@ func ruleC07R4(c *Ctx) {
 				}
 				if core.FuncName(callee) == "(*annotations).merge" && isParamOrLoad(x.Call.Args[0], m.annsParam) {
 					return // the R2 merge
+				}
+				if core.FuncName(callee) == "(*annotations).merge" {
+					if p, isParam := x.Call.Args[0].(*ssa.Parameter); isParam && p.Parent() == fn {
+						for pi, q := range fn.Params {
+							if q == p {
+								if _, ok := c.handOverHelper(fn, pi); ok {
+									return // the R2 merge, made by the hand-over helper
+								}
+							}
+						}
+					}
 				}
 				n++
 				c.R.Check(m.isFrameAnns(x.Call.Args[0]), rule, "record:"+core.FuncName(fn)+":"+callee.Name(), c.pos(x),
@@ -1115,6 +1142,15 @@ func ruleC07Records(c *Ctx) {
 	c.eachFamOwn(m.E, func(i ssa.Instruction) {
 		if call, ok := i.(*ssa.Call); ok && call.Call.StaticCallee() == mergeFn && isParamOrLoad(call.Call.Args[0], m.annsParam) {
 			mergeBlock = call.Block()
+		}
+		if call, ok := i.(*ssa.Call); ok && call.Parent() == m.E {
+			for pi, a := range call.Call.Args {
+				if isParamOrLoad(a, m.annsParam) {
+					if _, ok := c.handOverHelper(call.Call.StaticCallee(), pi); ok {
+						mergeBlock = call.Block()
+					}
+				}
+			}
 		}
 	})
 	if mergeBlock == nil {
@@ -1726,4 +1762,31 @@ func (c *Ctx) yieldCallsOf(body *ssa.Function) []*ssa.Call {
 		}
 	}
 	return out
+}
+
+// handOverHelper: h does nothing with its annotations parameter pi but test it for nil and merge another of its
+// parameters into it (st.handOver(callerAnns, &anns)). Returns the index of the source parameter.
+func (c *Ctx) handOverHelper(h *ssa.Function, pi int) (int, bool) {
+	mergeFn := c.P.MethodOf("annotations", "merge")
+	if h == nil || mergeFn == nil || !c.P.InPkg(h) || h.Parent() != nil || pi >= len(h.Params) || h.Params[pi].Referrers() == nil {
+		return 0, false
+	}
+	src := -1
+	for _, r := range *h.Params[pi].Referrers() {
+		switch x := r.(type) {
+		case *ssa.DebugRef, *ssa.BinOp:
+		case *ssa.Call:
+			if x.Call.StaticCallee() != mergeFn || len(x.Call.Args) != 2 || x.Call.Args[0] != ssa.Value(h.Params[pi]) {
+				return 0, false
+			}
+			for k, p := range h.Params {
+				if x.Call.Args[1] == ssa.Value(p) {
+					src = k
+				}
+			}
+		default:
+			return 0, false
+		}
+	}
+	return src, src >= 0
 }
